@@ -41,7 +41,8 @@ def sim_bounds(entry, c, tier):
         c['max_expo'] = 2 * e - 1
         c['tmax'] = 'sym'
     if entry == 'fast_nonMarkov_SIS':
-        c['max_infections'] = e
+        # 4 infections only on <= 3 nodes from <= 2 initial nodes (path cap otherwise)
+        c['max_infections'] = e if (graphs.ALL[c['graph']][0] <= 3 and len(c.get('I0') or []) <= 2) else 3
         c['delays_per_pair'] = 1
         c['tmax'] = 'sym'
     if entry in DISC:
